@@ -61,7 +61,10 @@ def run(chk):
     n = 240 if thorough else 60
     for k in range(n):
         cfg = W.random_config(rng, {"raw_mode": 1} if k % 10 == 9 else None)
-        if k % 10 == 6:
+        if k % 20 == 12:
+            cfg = W.random_config(rng, {"raw_mode": 1 if k % 40 == 12 else 0})
+            jobs.append((chk.seed * 2000 + k, cfg, {}, None, 0, False, "silence"))
+        elif k % 10 == 6:
             # one direction is black for 15-40 s (< 60 s) while packets are offered there and given up; then a clean path
             d = "up" if (k // 10) % 2 == 0 else "down"
             cfg = W.random_config(rng, {"raw_mode": 0, "blackout": {"dir": d, "n": rng.choice([2, 4, 5, 6, 7, 9]), "gap": 5500 if d == "up" else 3000}})
@@ -104,6 +107,14 @@ def run(chk):
         got_s = [f for _, f in r["tunw_s"]]
         got_c = [f for _, f in r["tunw_c"]]
         delivered += len(got_s) + len(got_c)
+        if r["scenario"] == "silence":
+            if r["client_ret"] is None:
+                chk.violation("C02 fails on the implementation: with nothing getting through in either direction for %d ms the client is still in its tunnel loop (the 60 s give-up did not fire) (%s)" % (r.get("silence_ms", 0), r["cfg"]), r["log"], key="c02:no-giveup")
+                bad += 1
+            elif r.get("silence_ms", 0) < 60000:
+                chk.violation("C02 fails on the implementation: the client left its tunnel loop after only %d ms without traffic (< 60 s) (%s)" % (r.get("silence_ms", 0), r["cfg"]), r["log"], key="c02:early-giveup")
+                bad += 1
+            continue
         if r["scenario"] == "blackout":
             if r["client_ret"] is not None:
                 chk.violation("C02 fails on the implementation: the client gave up (%s) although only one direction was bad, for %d ms (< 60 s) (%s)" % (r["client_ret"], r.get("blackout_ms", 0), r["cfg"]), r["log"], key="c02:exit")
